@@ -547,7 +547,11 @@ func work(ctx *runner.Ctx) {
 				}
 			}
 			// switch widths with the boundary alphabet
-			sw := switchWidths
+			var sw []int
+			for w := 9; w <= 130; w++ {
+				sw = append(sw, w) // thorough: every width 9..130
+			}
+			_ = switchWidths
 			if ctx.Quick() {
 				sw = []int{9, 12, 16, 17, 21, 22, 24, 31, 32, 33, 48, 63, 64, 65, 128, 130}
 			}
